@@ -418,8 +418,14 @@ class Check:
             body = (m.group(1) if m else "?").strip()
             return [] if body == "<none>" else [l.strip() for l in body.splitlines() if l.strip()]
         axs = section("* Axioms")
+        # coqchk lists the axioms of every library LOADED, used by a theorem or not: the specifications of the
+        # primitive 63-bit integers / floats are declared as axioms by the standard library itself (Uint63.v,
+        # PrimInt63.v, FloatAxioms.v); they come in with models that use machine integers for evaluation-only
+        # digests (C06, C20) and with Flocq (C16, C19).  No property theorem depends on them (Print Assumptions).
+        prim = ("Coq.Numbers.Cyclic.Int63.", "Coq.Floats.")
         bad_ax = [a for a in axs if a.split(":")[0].strip() not in ALLOWED_AXIOMS
-                  and a.split(":")[0].strip().split(".")[-1] not in ALLOWED_AXIOMS]
+                  and a.split(":")[0].strip().split(".")[-1] not in ALLOWED_AXIOMS
+                  and not a.split(":")[0].strip().startswith(prim)]
         unsafe = section("* Constants/Inductives relying on type-in-type") \
             + section("* Constants/Inductives relying on unsafe (co)fixpoints") \
             + section("* Inductives whose positivity is assumed")
